@@ -364,7 +364,10 @@ func (blockchain *Blockchain) BeginBlock(req abciTypes.RequestBeginBlock) abciTy
 	if frozenFunds != nil {
 		for _, item := range frozenFunds.List {
 			amount := item.Value
-			if item.GetMoveToCandidateID() == 0 {
+			// a move whose target candidate has been removed in the meantime returns to the owner like an unbond
+			moveTargetGone := item.GetMoveToCandidateID() != 0 &&
+				blockchain.stateDeliver.Candidates.GetCandidate(blockchain.stateDeliver.Candidates.PubKey(item.GetMoveToCandidateID())) == nil
+			if item.GetMoveToCandidateID() == 0 || moveTargetGone {
 				if item.CandidateKey != nil {
 					blockchain.eventsDB.AddEvent(&eventsdb.UnbondEvent{
 						Address:         item.Address,
